@@ -3,7 +3,7 @@ import ast
 
 from .astutil import fold, NotConstant, unparse, dotted
 from .bitcells import (Unsupported, Param, View, Bits, CU32, ModVal, XorVal, NegMask, Maybe, TableVal, Opaque, FuncValue, TOP,
-                       PCell, INF, Record, RecordType, ClassValue, Obj, BoundMethod, TableRef)
+                       PCell, INF, Record, RecordType, ClassValue, Obj, BoundMethod, TableRef, LetterTerms, PartialValue)
 
 CONSTS = (int, bool, str, type(None))
 STR_METHODS = {'lower', 'upper', 'strip', 'lstrip', 'rstrip', 'startswith', 'endswith', 'replace', 'casefold', 'title'}
@@ -185,6 +185,8 @@ class ExprMixin:
             return all(self.is_static(x) for x in v.values.values())
         if isinstance(v, ClassValue):
             return True
+        if isinstance(v, PartialValue):
+            return self.is_static(v.func) and all(self.is_static(x) for x in v.kwargs.values())
         if isinstance(v, Obj):
             if v.frozen is None:
                 return False
@@ -309,6 +311,7 @@ class ExprMixin:
         """[elt for targets in <folded sequence> if <decided test> ...] unrolled"""
         saved = dict(st.env)
         out = []
+        letters = []
 
         def rec(i):
             if st.dead:
@@ -324,6 +327,20 @@ class ExprMixin:
                 it = list(it.keys())
             if isinstance(it, range) and len(it) <= 4096:
                 it = list(it)
+            if isinstance(it, Opaque) and self.spelling_of(it) is not None and len(node.generators) == 1 and not g.ifs \
+                    and isinstance(g.target, ast.Name):
+                # the letters of an operand's spelling, known to come from a fixed alphabet: tabulate the element per letter
+                base, distinct = self.spelling_of(it)
+                alpha = [f[2] for f in st.facts if f[0] == 'letters' and f[1] == base]
+                if len(alpha) == 1:
+                    mapping = {}
+                    for letter in alpha[0]:
+                        st.env[g.target.id] = letter
+                        mapping[letter] = self.ev(node.elt, st)
+                        if st.dead:
+                            return
+                    letters.append(LetterTerms(base[1], mapping, distinct))
+                    return
             if not isinstance(it, list):
                 raise Unsupported('comprehension over something that is not a folded sequence: {}'.format(unparse(node)))
             for elem in it:
@@ -336,7 +353,19 @@ class ExprMixin:
             del st.env[k]
         for k, v in saved.items():
             st.env[k] = v
+        if letters and not st.dead:
+            return letters[0]
         return None if st.dead else out
+
+    def spelling_of(self, v):
+        """(derived spelling, letters distinct?) for Opaque values that stand for the characters of an operand's spelling"""
+        if not isinstance(v, Opaque) or not isinstance(v.desc, tuple):
+            return None
+        if v.desc[0] == 'letterseq':
+            return v.desc[1], v.desc[2]
+        if len(v.desc) == 2 and v.desc[0] in ('lower', 'upper', 'strip', 'casefold', 'lstrip', 'rstrip'):
+            return v.desc, False
+        return None
 
     def check_no_rebinding(self, fnode, name):
         """a nested function / lambda sees its free variables as they are now: refuse when the enclosing function rebinds one
@@ -402,6 +431,9 @@ class ExprMixin:
             return base[idx]
         if isinstance(base, Record) and base.rtype.is_tuple:
             base = base.as_list()
+        if isinstance(base, list) and base and all(isinstance(x, int) and not isinstance(x, bool) and x >= 0 for x in base) \
+                and isinstance(idx, (View, Bits, Param, ModVal)) or type(idx).__name__ == 'Lin' and isinstance(base, list):
+            return self.table_of_constants(base, idx, st, node)
         if isinstance(base, list) and isinstance(idx, int) and not isinstance(idx, bool):
             if not -len(base) <= idx < len(base):
                 raise Unsupported('index {} outside folded sequence'.format(idx))
@@ -411,6 +443,43 @@ class ExprMixin:
             if all(p is None or (isinstance(p, int) and not isinstance(p, bool)) for p in parts):
                 return base[slice(*parts)]
         raise Unsupported('subscript on abstract value: {}'.format(unparse(node)))
+
+    def table_of_constants(self, table, idx, st, node):
+        """TABLE[i] for a fully constant table of non-negative integers and a bounded abstract index: every output bit is
+        tabulated over the index bits; it must be a constant or one of the index bits (its provenance), else no verdict."""
+        ib = self.to_bits(idx, st, node)
+        if not all(isinstance(x, int) and not isinstance(x, bool) and x >= 0 for x in table):
+            raise Unsupported('table of non-integer constants indexed by an abstract value: {}'.format(unparse(node)))
+        syms = []
+        for b in ib.bits:
+            if isinstance(b, tuple) and b[0] != 'overlap' and b not in syms:
+                syms.append(b)
+            elif isinstance(b, tuple) and b[0] == 'overlap':
+                raise Unsupported('table indexed by overlapping fields: {}'.format(unparse(node)))
+        if len(syms) > 12:
+            raise Unsupported('table indexed by more than 12 free bits: {}'.format(unparse(node)))
+        rows = []
+        for assign in range(1 << len(syms)):
+            val = {s: (assign >> k) & 1 for k, s in enumerate(syms)}
+            i = 0
+            for pos, b in enumerate(ib.bits):
+                bit = b if b in (0, 1) else val[b]
+                i |= bit << pos
+            if i >= len(table):
+                raise Unsupported('index {} may exceed the table of {} entries: {}'.format(i, len(table), unparse(node)))
+            rows.append((val, table[i]))
+        width = max(x.bit_length() for _, x in rows) if rows else 0
+        out = []
+        for o in range(width):
+            col = [(x >> o) & 1 for _, x in rows]
+            if all(c == col[0] for c in col):
+                out.append(col[0])
+                continue
+            src = [s for s in syms if all(val[s] == c for (val, _), c in zip(rows, col))]
+            if len(src) != 1:
+                raise Unsupported('bit {} of the table entry is not one bit of the index: {}'.format(o, unparse(node)))
+            out.append(src[0])
+        return Bits(out, None, ib.tags)
 
     def trunc32(self, v, st, node):
         if isinstance(v, bool):
@@ -560,6 +629,10 @@ class ExprMixin:
                 return View(b.src, b.ch, b.add + a, 0, None)
             if isinstance(a, Bits) and a.is_const() and isinstance(b, int):
                 return a.const() + b if op is ast.Add else a.const() - b
+            if op is ast.Sub and isinstance(a, Bits) and isinstance(b, int) and not isinstance(b, bool) and b >= 0 \
+                    and all(i < len(a.bits) and a.bits[i] == 1 for i in range(b.bit_length()) if (b >> i) & 1):
+                # every bit subtracted is a constant 1 of the value: no borrow, those bits are cleared
+                return a.derive([0 if (b >> i) & 1 else x for i, x in enumerate(a.bits)], keep_origin=False)
             raise Unsupported('arithmetic {} outside operand +/- constant'.format(unparse(node)))
         if op is ast.RShift:
             if not isinstance(b, int) or b < 0:
